@@ -32,6 +32,7 @@ func archOf(p *WPkg, f *a.Func) string {
 }
 
 func runC09(c *core.Ctx) {
+	runC09Twin(c)
 	cb := c.BuildC()
 	if cb == nil {
 		return
